@@ -13,6 +13,7 @@ non-identical subscriptions (not claimed by the property).
 import ast
 
 from ..model import unparse, walk_body_shallow
+from .util import *  # noqa: F401,F403
 from .util import call_name, call_recv, calls_in, kwarg, names_in, need, norm, where
 
 TECHNIQUE = "exactly-one-append per loop path, guard-fact dominance, order-taint, advance counting"
